@@ -516,6 +516,14 @@ func (env *Env) elabCall(e *SCall) Val {
 				a := args()
 				ex.declare("(declare-fun typeOf (Ref) Int)")
 				return Val{T: app("typeOf", a[0].T), S: SInt}
+			case "implements":
+				// implements(typeOf(x), typeId(I)): the predicate behind the interface type assertion x.(I)
+				a := args()
+				if len(a) != 2 || a[0].S.K != KInt || a[1].S.K != KInt {
+					elabFail("implements(typeOf(x), typeId(I))")
+				}
+				ex.declare("(declare-fun implements (Int Int) Bool)")
+				return Val{T: app("implements", a[0].T, a[1].T), S: SBool}
 			case "typeId":
 				// typeId(TypeName): the tag of a Go type
 				if len(e.Args) != 1 {
@@ -668,7 +676,7 @@ func (env *Env) elabCall(e *SCall) Val {
 		if id, ok := sel.X.(*SIdent); ok {
 			if _, bound := env.names[id.Name]; !bound && !(env.cur != nil && env.pos != token.NoPos && ex.hasLocalByName(env.cur, id.Name, env.pos)) {
 				if p := ex.importedPkg(env.pkg, id.Name); p != nil {
-					obj, ok := p.Scope().Lookup(sel.Name).(*types.Func)
+					obj, ok := ex.ld.lookupFunc(p, sel.Name)
 					if !ok {
 						elabFail("%s.%s is not a function", id.Name, sel.Name)
 					}
@@ -919,6 +927,65 @@ func (ex *Exec) sortOfSType(t *SType, pkg *types.Package) (*Sort, types.Type) {
 
 // lookupGoType resolves "Name" or "pkg.Name" relative to pkg.
 func (ex *Exec) lookupGoType(pkg *types.Package, name string) types.Type {
+	if strings.HasPrefix(name, "[]") {
+		if t := ex.lookupGoType(pkg, name[2:]); t != nil {
+			return types.NewSlice(t)
+		}
+		return nil
+	}
+	if strings.HasPrefix(name, "*") {
+		if t := ex.lookupGoType(pkg, name[1:]); t != nil {
+			return types.NewPointer(t)
+		}
+		return nil
+	}
+	if i := strings.Index(name, "["); i > 0 && strings.HasSuffix(name, "]") {
+		// instantiated generic: Name[Arg,...] (arguments split at top-level commas)
+		g, _ := ex.lookupGoType(pkg, name[:i]).(*types.Named)
+		if g == nil || g.TypeParams().Len() == 0 {
+			return nil
+		}
+		var targs []types.Type
+		depth, start := 0, i+1
+		inner := name[:len(name)-1]
+		for j := i + 1; j <= len(inner); j++ {
+			if j == len(inner) || (inner[j] == ',' && depth == 0) {
+				a := ex.lookupGoType(pkg, strings.TrimSpace(inner[start:j]))
+				if a == nil {
+					return nil
+				}
+				targs = append(targs, a)
+				start = j + 1
+				continue
+			}
+			switch inner[j] {
+			case '[':
+				depth++
+			case ']':
+				depth--
+			}
+		}
+		if len(targs) != g.TypeParams().Len() {
+			return nil
+		}
+		inst, err := types.Instantiate(nil, g, targs, false)
+		if err != nil {
+			return nil
+		}
+		return inst
+	}
+	if !strings.Contains(name, ".") && ex.fn != nil {
+		// a type parameter of the (generic) function under verification or of its receiver
+		if sig, ok := ex.fn.Type().(*types.Signature); ok {
+			for _, tps := range []*types.TypeParamList{sig.TypeParams(), sig.RecvTypeParams()} {
+				for k := 0; tps != nil && k < tps.Len(); k++ {
+					if tps.At(k).Obj().Name() == name {
+						return tps.At(k)
+					}
+				}
+			}
+		}
+	}
 	if i := strings.LastIndex(name, "."); i >= 0 {
 		p := ex.importedPkg(pkg, name[:i])
 		if p == nil {
@@ -1021,7 +1088,7 @@ func (env *Env) elabCallMulti(e SExpr) []Val {
 		if id, ok := f.X.(*SIdent); ok {
 			if _, bound := env.names[id.Name]; !bound {
 				if p := ex.importedPkg(env.pkg, id.Name); p != nil {
-					fn, ok := p.Scope().Lookup(f.Name).(*types.Func)
+					fn, ok := ex.ld.lookupFunc(p, f.Name)
 					if !ok {
 						elabFail("%s.%s is not a function", id.Name, f.Name)
 					}
